@@ -10,6 +10,18 @@ COMMON_NOTE = ("Trusted base: TLC 1.8 evaluating the TLA+ specification in /veri
                "assumption of DESIGN 2.5 for the exhaustive part; simulated / random traces go beyond it.")
 
 CHECKS = {
+ "C20": dict(engine="Generators", design="3/C20",
+   text=("Generators.tla specifies the deterministic generators by value (ones, zeros, super-diagonal with the "
+         "max(len, size) shape rule, aggregation of duplicate subscripts with sum / max / min / counting reducers and "
+         "zero dropping, from_function layouts, the identity tensor by its defining property I x^(m-1) = |x|^(m-2) x "
+         "on all vectors over {-1,0,1,2}) and the random ones by contract (shape, well-formedness, number of distinct "
+         "nonzeros for a count or density, values produced by the supplied function, range, reproducibility under "
+         "the global seed).  TLC checks laws of the specified values, enumerates every call in scope (e.g. every "
+         "subscript list with <= 4 rows over a 2x2 grid in every order) and validates the results recorded from the "
+         "real generators against Generators_Trace."),
+   technique="TLA+ spec Generators (values + contracts); TLC exhaustive call generation; replay; TLC trace validation",
+   note=("Open known finding: random sparse generators return fewer distinct nonzeros than requested when random "
+         "subscripts collide.  Trusted base: TLC, projections and labelled value functions in harness/c20.py.")),
  "C19": dict(engine="Requests", design="3/C19",
    text=("Requests.tla gives every operation family a precondition as a set of named clauses over the shape-level "
          "description of the call, and Answer / Reject actions (a request is rejected iff a clause fails; a rejected "
